@@ -140,7 +140,10 @@ func maskUnmarshalText[T ~int32](mask *T, tag int, text string) error {
 		var parsed int64
 		var err error
 		if strings.HasPrefix(part, "0x") || strings.HasPrefix(part, "0X") {
-			parsed, err = strconv.ParseInt(part[2:], 16, 32)
+			// The text form writes the high bit as 0x80000000: read the flag as an unsigned 32 bit pattern
+			var bits uint64
+			bits, err = strconv.ParseUint(part[2:], 16, 32)
+			parsed = int64(int32(uint32(bits)))
 		} else {
 			parsed, err = strconv.ParseInt(part, 10, 32)
 			if err != nil {
